@@ -254,5 +254,124 @@ def run(chk, ctx):
     chk.decide("C07.USE", "hrevolve_sequences.basic_functions.Sequence.makespan", True if not reads else None,
                "makespan/cost() only maintained inside Sequence" if not reads else
                f"read outside Sequence: {[(r, q) for r, q, _ in reads]}", rel=SEQ + "basic_functions.py", nontrivial=False)
+    homo(chk, ctx, rf)
     chk.note("not decided: that the recurrences are the optimum of the hierarchical problem, and the monotonicity "
              "statements between classes (consequences of the min over options, but they need induction over table values)")
+
+
+# ---------------------------------------------------------------------------
+# HOMO: the candidate expression of a split decision is the symbolic cost of the
+# operations and sub-sequences the production emits
+
+CALL_TABLE = {          # builder -> (table, index order) : what its result's cost is called in the tables
+    "revolve": ("opt0", ("cm", "l")),                 # opt_0[cm][l]
+    "disk_revolve": ("optinf", ("l",)),               # opt_inf[l]
+    "hrevolve_recurse": ("opt", ("K", "l", "cmem")),  # hopt[K][l][cmem]
+    "hrevolve_aux": ("optp", ("K", "l", "cmem")),     # hoptp[K][l][cmem]
+}
+
+
+def op_costs(repo):
+    """Operation.cost -> {type: descriptor}; descriptor in
+    ('zero',) ('key', k) ('veckey', k) ('span', k)"""
+    rel = SEQ + "basic_functions.py"
+    f = repo.method(rel, "Operation", "cost")
+    out = {}
+    for s in f.body:
+        if not (isinstance(s, ast.If) and isinstance(s.test, ast.Compare) and len(s.body) == 1
+                and isinstance(s.body[0], ast.Return)):
+            continue
+        t = s.test
+        if not (isinstance(t.comparators[0], ast.Constant) and isinstance(t.comparators[0].value, str)):
+            continue
+        name, v = t.comparators[0].value, s.body[0].value
+        if isinstance(v, ast.Constant) and v.value == 0:
+            out[name] = ("zero",)
+        elif isinstance(v, ast.Subscript) and isinstance(v.value, ast.Attribute) and v.value.attr == "params" \
+                and isinstance(v.slice, ast.Constant):
+            out[name] = ("key", v.slice.value)
+        elif isinstance(v, ast.Subscript) and isinstance(v.value, ast.Subscript) and isinstance(v.value.value, ast.Attribute) \
+                and v.value.value.attr == "params" and isinstance(v.value.slice, ast.Constant):
+            out[name] = ("veckey", v.value.slice.value)
+        elif isinstance(v, ast.BinOp) and isinstance(v.op, ast.Mult):
+            keys = [x.slice.value for x in ast.walk(v) if isinstance(x, ast.Subscript) and isinstance(x.value, ast.Attribute)
+                    and x.value.attr == "params" and isinstance(x.slice, ast.Constant)]
+            if len(keys) == 1:
+                out[name] = ("span", keys[0])
+    return out
+
+
+def homo(chk, ctx, rf):
+    from ..gram import Grammar, production_paths
+    from ..poly import padd, pmul, pconst
+    chk.describe("C07.HOMO", "the candidate cost of each split decision equals the symbolic cost of what the production emits")
+    repo = ctx.repo
+    g = Grammar(repo)
+    costs = op_costs(repo)
+    live = g.liveness
+    # in the hierarchical builders the dict holds vectors: wd -> wvect, rd -> rvect
+    for dname in ("revolve", "disk_revolve", "hrevolve_aux"):
+        if dname not in g.builders:
+            continue
+        drel, dfn = live.funcs[dname]
+        tname = dict((d, t) for t, d in PAIRS)[dname]
+        pb = builder(tname)
+        hier = dname.startswith("hrevolve")
+        decs = [d for d in decision_sites(dfn, pb, live) if not d.get("direct")]
+        # the variable receiving argmin(list_mem)
+        for conds, items in production_paths(g, dname):
+            calls = [x for x in items if not isinstance(x, tuple) and x.kind == "call"]
+            if len(calls) < 2 or any(isinstance(x, tuple) for x in items):
+                continue
+            # this is a split production: find the decision whose list_mem precedes it
+            first_line = min(x.node.lineno for x in items if not isinstance(x, tuple))
+            cand = [d for d in decs if d["node"].lineno < first_line]
+            if not cand:
+                continue
+            d = max(cand, key=lambda x: x["node"].lineno)
+            total = {}
+            ok = True
+            why = ""
+            ren = dict(INDEX_NAMES)
+            ren["jmin"] = d["var"]
+            pbj = builder(tname)
+            pbj.rename = ren
+            for it in items:
+                if it.kind == "op":
+                    c = costs.get(it.type)
+                    if c is None:
+                        ok, why = None, f"no cost rule for {it.type}"
+                        break
+                    if c[0] == "zero":
+                        continue
+                    key = c[1]
+                    if c[0] == "span":
+                        a, z = it.idx.elts
+                        total = padd(total, pmul(pbj.poly(ast.BinOp(z, ast.Sub(), a)), patom(key)))
+                    elif c[0] == "key":
+                        total = padd(total, patom(key))
+                    else:
+                        lvl = it.idx.elts[0]
+                        vec = {"wd": "wvect", "rd": "rvect"}.get(key, key)
+                        total = padd(total, patom(f"{vec}[{pstr(pbj.poly(lvl))}]"))
+                else:
+                    tab = CALL_TABLE.get(it.callee)
+                    if tab is None:
+                        ok, why = None, f"no table for {it.callee}"
+                        break
+                    params = [a.arg for a in live.funcs[it.callee][1].args.args]
+                    bound = {p: a for p, a in zip(params, it.call.args)}
+                    try:
+                        idx = [pstr(pbj.poly(bound[p])) for p in tab[1]]
+                    except KeyError:
+                        ok, why = None, f"cannot bind {tab[1]} for {it.callee}"
+                        break
+                    total = padd(total, patom(tab[0] + "".join(f"[{i}]" for i in idx)))
+            cons = f"{drel[:-3].replace('/', '.')}.{dname}#production@decision-line-order[{decs.index(d)}]"
+            if ok is None:
+                chk.decide("C07.HOMO", cons, None, why, rel=drel, node=items[0].node)
+                continue
+            same = pkey(total) == d["elem"]
+            chk.decide("C07.HOMO", cons, True if same else False,
+                       f"production {[repr(x) for x in items][:6]} costs {pstr(total)}; the decision minimises `{d['text']}` "
+                       f"= {pstr(dict(d['elem']))}", rel=drel, node=items[0].node)
